@@ -414,6 +414,8 @@ pub fn scenario(open: BTreeSet<String>, followers: usize) -> ReplScenario {
     ops.push(LOp::Api(Op::PDelete(1, s("?"))));
     ops.push(LOp::Api(Op::Import(s(r#"{"data":{"t":{"a":{"v":5},"i":{"t":{"p":{"v":"x"}}}}}}"#))));
     ops.push(LOp::Api(Op::Import(s(r#"{"data":{"t":{"c":{"v":{"Cas":[8,5]}},"n":{"v":{"Cas":[1,1]}}}}}"#))));
+    // the stored value again, but as a plain entry over a CAS one / as a fresh key: only the kind changes
+    ops.push(LOp::Api(Op::Import(s(r#"{"data":{"t":{"c":{"v":1}}}}"#))));
     ops.push(LOp::FollowerWrite(Op::Set(0, s("a"), json!(77))));
     ops.push(LOp::FollowerWrite(Op::Delete(0, s("a"))));
     ops.push(LOp::FollowerWrite(Op::PDelete(0, s("#"))));
